@@ -1,4 +1,4 @@
-import Sourmash.Lemmas.SampleInv
+import Sourmash.Lemmas.SampleHistory
 /-! Property C01 — a sketch always holds exactly the sample its parameters define.
 Property theorems only; helper lemmas live in `Sourmash/Lemmas/Sample*.lean`.
 
@@ -62,6 +62,74 @@ theorem merge_refines (s o : Vec) (s' o' : Tree) (σ τ : St) (i : SInv σ) (j :
     VRef (s.merge o) (σ.merge τ) ∧ TRef (s'.merge o') (σ.merge τ) :=
   ⟨r.merge q j, r'.merge q' i j⟩
 
+/-- **T-num_bottom**: a num sketch built by insertions (abundances ≥ 1, any order, duplicates
+    allowed) holds exactly the `num` smallest of ALL distinct inserted hashes — `all` is their
+    strictly increasing list, characterised by membership, each with the sum of the abundances
+    inserted for it — on both sketch types; tracked abundances are the matching prefix. -/
+theorem num_bottom (n : Nat) (t : Bool) (adds : List (Nat × Nat)) (hn : 1 ≤ n)
+    (hpos : ∀ p ∈ adds, 1 ≤ p.2) :
+    let all := union [] adds
+    Sorted (keys all) ∧ (∀ x, x ∈ keys all ↔ x ∈ adds.map Prod.fst) ∧ (∀ x, mapGet all x = sumFor adds x)
+    ∧ vecObs (runVec 0 (addsHist n t adds)) = ⟨(keys all).take n, if t then some ((vals all).take n) else none⟩
+    ∧ treeObs (runTree 0 (addsHist n t adds)) = ⟨(keys all).take n, if t then some ((vals all).take n) else none⟩ := by
+  intro all
+  have hwf : (addsHist n t adds).WF 0 := opsHist_wf t _ (Or.inl ⟨rfl, hn⟩)
+  have hobs : ∀ k, (runSpec k 0 (addsHist n t adds)).obs
+      = ⟨(keys all).take n, if t then some ((vals all).take n) else none⟩ := by
+    intro k
+    unfold St.obs
+    rw [runSpec_adds_num k n t adds hn hpos, keys_take, vals_take]
+    unfold addsHist
+    rw [runSpec_opsHist_track]
+  refine ⟨sorted_union adds List.Pairwise.nil, ?_, ?_, ?_, ?_⟩
+  · intro x
+    rw [mem_keys_union_iff]
+    simp [keys]
+  · intro x
+    rw [mapGet_union List.Pairwise.nil]; simp [mapGet_nil]
+  · rw [(vec_refines 0 _ hwf).1, hobs]
+  · rw [(tree_refines 0 _ hwf (addsHist_noSet n t adds)).1, hobs]
+
+/-- **T-scaled_history**: on a scaled sketch (ceiling `mh ≥ 1`) under any sequence of add /
+    add-with-abundance / set / remove / remove_many / clear, the fate of each hash `x` is the
+    per-hash state machine `pt`: absent at the start; an `add x a` with `a ≥ 1` and `x ≤ mh` makes
+    it present and adds `a` to what it accumulated since it was last absent; `remove`, `remove_many`
+    containing it, `clear` (and `add x 0` on the vector type) make it absent; everything else leaves
+    it alone.  Stated for the abstract sample and for the hashes and tracked abundances both
+    sketch types report. -/
+theorem scaled_history (mh : Nat) (t : Bool) (ops : List Op) (hmh : 1 ≤ mh) (x : Nat) :
+    (x ∈ (runVec mh (opsHist 0 t ops)).mins ↔ (ops.foldl (pt .vec mh x) none).isSome = true)
+    ∧ (∀ l, (runVec mh (opsHist 0 t ops)).abunds = some l →
+        lookup ((runVec mh (opsHist 0 t ops)).mins.zip l) x = ops.foldl (pt .vec mh x) none)
+    ∧ ((∀ o ∈ ops, o.noSet) →
+        (x ∈ (runTree mh (opsHist 0 t ops)).mins ↔ (ops.foldl (pt .tree mh x) none).isSome = true)
+        ∧ (∀ m, (runTree mh (opsHist 0 t ops)).abunds = some m → lookup m x = ops.foldl (pt .tree mh x) none)) := by
+  have hwf : (opsHist 0 t ops).WF mh := opsHist_wf t ops (Or.inr ⟨hmh, rfl⟩)
+  have rv := runVec_ref mh _ hwf
+  refine ⟨?_, ?_, ?_⟩
+  · rw [rv.mins, ← lookup_isSome_iff, lookup_run_scaled .vec mh t ops hmh x]
+  · intro l hl
+    rw [rv.ab] at hl
+    split at hl
+    · cases hl
+      rw [rv.mins, zip_keys_vals, lookup_run_scaled .vec mh t ops hmh x]
+    · cases hl
+  · intro hns
+    have rt := runTree_ref mh _ hwf (opsHist_noSet 0 t ops hns)
+    refine ⟨?_, ?_⟩
+    · rw [rt.mins, ← lookup_isSome_iff, lookup_run_scaled .tree mh t ops hmh x]
+    · intro m hm
+      rw [rt.ab] at hm
+      split at hm
+      · cases hm
+        exact lookup_run_scaled .tree mh t ops hmh x
+      · cases hm
+
+/-- the abstract form of T-scaled_history -/
+theorem scaled_history_spec (k : Kind) (mh : Nat) (t : Bool) (ops : List Op) (hmh : 1 ≤ mh) (x : Nat) :
+    lookup (runSpec k mh (opsHist 0 t ops)).m x = ops.foldl (pt k mh x) none :=
+  lookup_run_scaled k mh t ops hmh x
+
 /-! ### non-vacuity: concrete histories hitting eviction, the ceiling, 0 and 2^64−1 -/
 
 /-- num = 2: 2^64−1, 0, 5 inserted; eviction keeps {0,5}; the hypotheses of the theorems hold -/
@@ -85,5 +153,17 @@ example : (Hist.op (.op (.op (.new 0 true) (.add 10 1)) (.add 11 1)) (.add 10 0)
 example : vecObs (runVec 0 (.merge (.op (.new 3 true) (.add 7 2)) (.op (.new 3 false) (.add 4 1))))
     = treeObs (runTree 0 (.merge (.op (.new 3 true) (.add 7 2)) (.op (.new 3 false) (.add 4 1)))) :=
   vec_tree_equiv 0 _ (by simp [Hist.WF, WFp]) (by simp [Hist.PosAb, Op.posAb])
+
+/-- T-num_bottom's hypotheses are satisfiable, and its reading on a concrete stream: of
+    9, 2, 9, 5 with num = 2 the sample is {2, 5}; 9 accumulated 1+4 but is not among the 2 smallest -/
+example : keys (union [] [(9, 1), (2, 1), (9, 4), (5, 3)]) = [2, 5, 9]
+    ∧ vals (union [] [(9, 1), (2, 1), (9, 4), (5, 3)]) = [1, 3, 5]
+    ∧ (∀ p ∈ [(9, 1), (2, 1), (9, 4), (5, 3)], 1 ≤ p.2) := by decide
+
+/-- T-scaled_history's per-hash machine on a concrete sequence: add, add, remove, add → 7 -/
+example : [Op.add 4 2, .add 4 3, .remove 4, .add 4 7].foldl (pt .vec 10 4) none = some 7
+    ∧ [Op.add 11 2].foldl (pt .vec 10 11) none = none
+    ∧ [Op.add 4 2, .add 4 0].foldl (pt .vec 10 4) none = none
+    ∧ [Op.add 4 2, .add 4 0].foldl (pt .tree 10 4) none = some 2 := by decide
 
 end Sourmash.C01
